@@ -189,11 +189,13 @@ theorem aget_usedNames_complete (items : List UItem) (acc : AList Str) (it : UIt
 /-- how the code decides the local name: `used_names[name]` with ONLY, the
     remote name itself without -/
 def AdmitsCode (u : UseA) (r l : Str) : Prop :=
-  if u.only then aget (usedNames u.items) r = some l else l = r
+  if u.only then aget (usedNames u.items) r = some l
+  else l = (if u.renAll then (aget (usedNames u.items) r).getD r else r)
 
-theorem mem_usedStep (only : Bool) (used : AList Str) (res : Table) (q p : Str × Ent)
-    (h : p ∈ usedStep only used res q) :
-    p ∈ res ∨ (p.2 = q.2 ∧ if only then aget used q.1 = some p.1 else p.1 = q.1) := by
+theorem mem_usedStep (only ra : Bool) (used : AList Str) (res : Table) (q p : Str × Ent)
+    (h : p ∈ usedStep only ra used res q) :
+    p ∈ res ∨ (p.2 = q.2 ∧ if only then aget used q.1 = some p.1
+      else p.1 = (if ra then (aget used q.1).getD q.1 else q.1)) := by
   unfold usedStep at h
   cases only with
   | true =>
@@ -216,18 +218,19 @@ theorem mem_getUsed (u : UseA) (pub : Table) (p : Str × Ent) (h : p ∈ getUsed
   unfold getUsed at h
   by_cases hc : u.only = false ∧ u.items = []
   · simp only [hc, and_self, if_true] at h
-    exact ⟨p.1, h, by simp [AdmitsCode, hc.1]⟩
+    exact ⟨p.1, h, by simp [AdmitsCode, hc.1, hc.2, usedNames, aget]⟩
   · rw [if_neg hc] at h
-    rcases mem_foldl_sound (usedStep u.only (usedNames u.items))
-        (fun q p => p.2 = q.2 ∧ if u.only then aget (usedNames u.items) q.1 = some p.1 else p.1 = q.1)
-        (fun t a p hp => mem_usedStep _ _ _ _ _ hp) pub [] p h with h | ⟨q, hq, hp⟩
+    rcases mem_foldl_sound (usedStep u.only u.renAll (usedNames u.items))
+        (fun q p => p.2 = q.2 ∧ if u.only then aget (usedNames u.items) q.1 = some p.1
+          else p.1 = (if u.renAll then (aget (usedNames u.items) q.1).getD q.1 else q.1))
+        (fun t a p hp => mem_usedStep _ _ _ _ _ _ hp) pub [] p h with h | ⟨q, hq, hp⟩
     · simp at h
     · refine ⟨q.1, ?_, ?_⟩
       · rw [hp.1]; exact hq
       · simpa [AdmitsCode] using hp.2
 
-theorem hasKey_usedStep_mono (only : Bool) (used : AList Str) (res : Table) (q : Str × Ent) (l : Str)
-    (h : hasKey res l) : hasKey (usedStep only used res q) l := by
+theorem hasKey_usedStep_mono (only ra : Bool) (used : AList Str) (res : Table) (q : Str × Ent) (l : Str)
+    (h : hasKey res l) : hasKey (usedStep only ra used res q) l := by
   unfold usedStep
   cases only with
   | true =>
@@ -242,11 +245,11 @@ theorem hasKey_getUsed (u : UseA) (pub : Table) (r l : Str) (e : Ent) (hm : (r, 
   unfold getUsed
   by_cases hc : u.only = false ∧ u.items = []
   · simp only [hc, and_self, if_true]
-    simp [AdmitsCode, hc.1] at ha
+    simp [AdmitsCode, hc.1, hc.2, usedNames, aget] at ha
     subst ha
     exact hasKey_of_mem _ _ _ hm
   · rw [if_neg hc]
-    refine hasKey_foldl_complete _ (fun t a l h => hasKey_usedStep_mono _ _ _ _ _ h) pub [] l (r, e) hm ?_
+    refine hasKey_foldl_complete _ (fun t a l h => hasKey_usedStep_mono _ _ _ _ _ _ h) pub [] l (r, e) hm ?_
     intro t
     unfold usedStep
     unfold AdmitsCode at ha
@@ -267,7 +270,7 @@ theorem admits_of_code (u : UseA) (r l : Str) (hc : u.only = false → u.items =
     · exact Or.inl h
     · exact Or.inr ⟨h.1, by simpa using h.2⟩
   | false =>
-    simp [ho] at h
+    simp [ho, hc ho, usedNames, aget] at h
     right
     refine ⟨h, ?_⟩
     simp [hc ho]
@@ -286,10 +289,51 @@ theorem code_of_admits (u : UseA) (r l : Str) (hc : u.only = false → u.items =
       have := aget_usedNames_complete u.items [] (UItem.plain r) (hn ho) h.2
       simpa [UItem.remote, UItem.loc, h.1] using this
   | false =>
-    simp
+    simp [hc ho, usedNames, aget]
     rcases h with h | h
     · simp [hc ho] at h
     · exact h.1
+
+/-- repaired variant: a rename list without ONLY is honoured exactly as the standard says -/
+theorem code_iff_admits_repaired (u : UseA) (r l : Str) (ho : u.only = false) (hf : u.renAll = true)
+    (hn : (u.items.map UItem.remote).Nodup) (hall : ∀ it ∈ u.items, ∃ a b, it = UItem.ren a b) :
+    AdmitsCode u r l ↔ Admits u r l := by
+  unfold AdmitsCode Admits
+  simp only [ho, hf, if_true, Bool.false_eq_true, if_false]
+  have hnone : (∀ l', UItem.ren l' r ∉ u.items) → aget (usedNames u.items) r = none := by
+    intro hno
+    cases hg : aget (usedNames u.items) r with
+    | none => rfl
+    | some x =>
+      rcases mem_usedNames _ _ _ (aget_mem _ _ _ hg) with h | h
+      · exact absurd h (hno x)
+      · obtain ⟨a, b, hab⟩ := hall _ h.2
+        cases hab
+  constructor
+  · intro h
+    cases hg : aget (usedNames u.items) r with
+    | none =>
+      rw [hg] at h
+      right
+      refine ⟨h, ?_⟩
+      intro l' hl'
+      have := aget_usedNames_complete u.items [] (UItem.ren l' r) hn hl'
+      rw [← usedNames_eq] at this
+      simp [UItem.remote] at this
+      rw [hg] at this; cases this
+    | some x =>
+      rw [hg] at h
+      simp at h
+      rcases mem_usedNames _ _ _ (aget_mem _ _ _ hg) with h' | h'
+      · left; rw [h]; exact h'
+      · obtain ⟨a, b, hab⟩ := hall _ h'.2
+        cases hab
+  · rintro (h | ⟨h1, h2⟩)
+    · have := aget_usedNames_complete u.items [] (UItem.ren l r) hn h
+      rw [← usedNames_eq] at this
+      simp [UItem.remote, UItem.loc] at this
+      simp [this]
+    · rw [hnone h2]; simp [h1]
 
 /-! ### state, `findMod`, `init` -/
 
